@@ -1,4 +1,4 @@
-import PMV.Lemmas.GatherSh
+import PMV.Lemmas.GatherTree
 /-
   C17 — shrinking to an antimask and unshrinking afterwards does not change any result.
   Property theorems.  Core Lean only.
@@ -85,96 +85,208 @@ variable [Inhabited K]
 def PShr (am : Arr Bool) (gpre : Shape) : Index → Index → Prop :=
   fun j' j => ∃ p a, a ∈ trues am ∧ Valid gpre p ∧ j' = p ++ [rnk am a] ∧ j = p ++ a
 
-/-- operands covered by the code-level theorems: no derivatives, the trailing axes are the
-    antimask's (any number of leading axes in front, broadcastable into the grid) -/
-def Aligned (am : Arr Bool) (gpre : Shape) (x : Q K) : Prop :=
-  x.derivs = [] ∧ ∃ pre, x.obj.shape = pre ++ am.shape ∧ bcast pre gpre = some gpre
+/-- the correspondence of the test mode `_DISABLE_SHRINKING`: the same grid index, selected -/
+def PDis (am : Arr Bool) (gpre : Shape) : Index → Index → Prop :=
+  fun j' j => ∃ p a, a ∈ trues am ∧ Valid gpre p ∧ j' = p ++ a ∧ j = p ++ a
 
--- FULL: `shrink_rel` for every operand whose shape broadcasts against the antimask (fewer axes,
--- unit axes) and with derivatives.  Proved here for `Aligned` operands; the remaining shapes are
--- covered at the array level by `gather_map2` and on the real code by the correspondence check.
-/-- `shrink` (array antimask, shrinking enabled, every mask representation, every collapse
-    branch) returns an object that stands for its operand on the antimask -/
-theorem shrink_rel_partial (df : Dflt K) (cfg : Cfg) (am : Arr Bool) (gpre : Shape) (x x' : Q K)
-    (hdis : cfg.disable = false) (hx : Aligned am gpre x)
+/-- the operands the property quantifies over: well formed (every derivative has the shape of
+    its parent) and broadcastable into the grid `gpre ++ antimask.shape` — shape `()`, fewer
+    axes than the antimask, unit axes, leading axes in front of the antimask's; any mask
+    representation; any derivatives.  (The antimask itself is not stretched.) -/
+def Fits (am : Arr Bool) (gpre : Shape) (x : Q K) : Prop :=
+  x.WF ∧ bcast x.obj.shape (gpre ++ am.shape) = some (gpre ++ am.shape)
+
+/-- `shrink` (array antimask, shrinking enabled): the returned object stands for its operand
+    on the antimask — every branch (stand-in before / after gathering, shapeless pass-through,
+    rank reconciliation by broadcasting the operand, mask and value gather, collapse of the
+    gathered mask, derivative recursion) -/
+theorem shrink_rel (df : Dflt K) (cfg : Cfg) (am : Arr Bool) (gpre : Shape) (x x' : Q K)
+    (hdis : cfg.disable = false) (hx : Fits am gpre x)
     (h : shrink df cfg (.arr am) x = some x') : Rel (PShr am gpre) x' x := by
-  obtain ⟨hder, pre, hsh, hG⟩ := hx
-  obtain ⟨hk, hc⟩ := shrink_keys_cls df cfg am x x' pre hdis hder hsh h
+  obtain ⟨⟨hk, hc, _, _, _⟩, hsame⟩ := shrink_spec df cfg am x x' gpre hdis hx.1 hx.2 h
   refine ⟨hk, hc, ?_⟩
   rintro j' j ⟨p, a, ha, hp, rfl, rfl⟩
-  exact shrink_spec_aligned df cfg am x x' pre gpre hdis hder hsh hG h p a ha hp
+  exact hsame p a ha hp
 
-/-- the cached back-pointer is not used (it is absent, ignored, the cache is disabled, or the
-    object is the result of an operation, whose cache is empty) -/
-def NoCachedPath (cfg : Cfg) (y : Q K) : Prop := ∀ o ds, cacheLookup cfg y.back ≠ .to o ds
+/-- the same in the test mode: `shrink` = `mask_where(~antimask)` after broadcasting -/
+theorem shrink_rel_disabled (df : Dflt K) (cfg : Cfg) (am : Arr Bool) (gpre : Shape) (x x' : Q K)
+    (hdis : cfg.disable = true) (hx : x.WF)
+    (h : shrink df cfg (.arr am) x = some x') : Rel (PDis am gpre) x' x := by
+  obtain ⟨hk, hc, hsame⟩ := shrink_disabled_spec df cfg am x x' hdis hx h
+  refine ⟨hk, hc, ?_⟩
+  rintro j' j ⟨p, a, ha, _, rfl, rfl⟩
+  rw [hsame p a ha]; exact Cell.Same.refl _
 
-theorem noCachedPath_of_switch (cfg : Cfg) (y : Q K)
-    (h : cfg.ignoreCached = true ∨ cfg.disableCache = true) : NoCachedPath cfg y := by
-  intro o ds
-  unfold cacheLookup
-  rcases h with h | h
-  · split
-    · simp
-    · split <;> simp [h]
-  · simp [h]
+/-- a freshly shrunken object satisfies what `unshrink` needs: its back-pointer is current and
+    so are those of its derivatives whenever they are consulted -/
+theorem fresh_shrink_current (df : Dflt K) (cfg : Cfg) (am : Arr Bool) (gpre : Shape) (x x' : Q K)
+    (hdis : cfg.disable = false) (hx : Fits am gpre x)
+    (h : shrink df cfg (.arr am) x = some x') :
+    Good am gpre x' ∧ BackCurrent cfg am (gpre ++ [count am]) x' ∧
+    (NoCachedPath cfg x'.back → x'.obj.shape ≠ [] →
+      ∀ k d, lookupD x'.derivs k = some d → BackCurrent cfg am (gpre ++ [count am]) d.toQ) := by
+  obtain ⟨⟨_, _, hw, hf, hb1, hb2⟩, hsame⟩ := shrink_spec df cfg am x x' gpre hdis hx.1 hx.2 h
+  refine ⟨⟨hw, hf⟩, ?_, ?_⟩
+  · intro o ds e
+    obtain ⟨hwf, hcell⟩ := hb1 o ds (cacheLookup_to cfg _ o ds e)
+    refine ⟨hwf, fun p a ha hv => ?_⟩
+    rw [hcell]
+    have hp : Valid gpre p := (valid_append_inv gpre p [count am] [rnk am a] rfl hv).1
+    exact (hsame p a ha hp).symm
+  · intro hn hs k d _
+    obtain ⟨o, ds, e⟩ := hb2 hs
+    rw [e] at hn
+    exact backCurrent_of_noCachedPath _ _ _ _
+      (noCachedPath_of_switch cfg _ (switch_of_noCachedPath_to cfg o ds hn))
 
-theorem noCachedPath_of_op (cfg : Cfg) (y : Q K) (h : y.back = .none) : NoCachedPath cfg y := by
-  intro o ds; unfold cacheLookup; split <;> simp [h]
-
--- FULL: also through the cached path (`unshrunk.mask_where(~antimask)`), which needs the C18
--- invariant "the cached back-pointer is current", and with derivatives.
-/-- `unshrink(shrink(x))` reproduces `x` on the antimask: mask state and value of every
-    selected element, under every leading index -/
-theorem unshrink_shrink_partial (df : Dflt K) (cfg : Cfg) (am : Arr Bool) (gpre sh : Shape)
-    (x x' u : Q K) (hdis : cfg.disable = false) (hx : Aligned am gpre x)
-    (hs : shrink df cfg (.arr am) x = some x') (hnc : NoCachedPath cfg x') (hder : x'.derivs = [])
-    (hfit : bcast x'.obj.shape (gpre ++ [count am]) = some (gpre ++ [count am]))
+/-- `unshrink(shrink(x))` reproduces `x` on the antimask — mask state, value and derivatives of
+    every selected element, under every leading index — in all four switch settings (the cached
+    path included: the back-pointer `shrink` has just stored is current) -/
+theorem unshrink_shrink (df : Dflt K) (cfg : Cfg) (am : Arr Bool) (gpre sh : Shape)
+    (x x' u : Q K) (hx : Fits am gpre x)
+    (hs : shrink df cfg (.arr am) x = some x')
     (hu : unshrink df cfg (.arr am) sh x' = some u) :
     ∀ p a, a ∈ trues am → Valid gpre p → Cell.Same (u.cellB (p ++ a)) (x.cellB (p ++ a)) := by
   intro p a ha hp
-  have h1 := unshrink_spec df cfg am sh x' u hdis hder hnc hu _ hfit p a ha
-    (valid_append _ _ _ _ hp ⟨rnk_lt ha, trivial⟩)
-  have h2 := (shrink_rel_partial df cfg am gpre x x' hdis hx hs).2.2 _ _ ⟨p, a, ha, hp, rfl, rfl⟩
-  exact h1.trans h2
+  cases hdis : cfg.disable
+  · obtain ⟨hg, hc, hcd⟩ := fresh_shrink_current df cfg am gpre x x' hdis hx hs
+    have h1 := unshrink_spec df cfg am sh x' u _ hdis hg.1 hc hcd hg.2 hu p a ha
+      (valid_append _ _ _ _ hp ⟨rnk_lt ha, trivial⟩)
+    exact h1.trans ((shrink_rel df cfg am gpre x x' hdis hx hs).2.2 _ _ ⟨p, a, ha, hp, rfl, rfl⟩)
+  · rw [unshrink_disabled df cfg _ sh x' hdis] at hu
+    cases hu
+    exact (shrink_rel_disabled df cfg am gpre x x' hdis hx.1 hs).2.2 _ _ ⟨p, a, ha, hp, rfl, rfl⟩
 
-theorem relEnv_shrink (df : Dflt K) (cfg : Cfg) (am : Arr Bool) (gpre : Shape)
-    (hdis : cfg.disable = false) : ∀ (env senv : List (Q K)),
-    (∀ x ∈ env, Aligned am gpre x) → mapM' (shrink df cfg (.arr am)) env = some senv →
-    RelEnv (PShr am gpre) senv env
-  | [], senv, _, h => by simp only [mapM', Option.some.injEq] at h; subst h; trivial
-  | x :: xs, senv, hx, h => by
-    simp only [mapM'] at h
-    cases h1 : shrink df cfg (.arr am) x <;> simp only [h1] at h
+theorem relEnv_of (P : Index → Index → Prop) (f : Q K → Option (Q K))
+    (hf : ∀ x x', f x = some x' → Rel P x' x) : ∀ (env senv : List (Q K)),
+    mapOpt f env = some senv → RelEnv P senv env
+  | [], senv, h => by simp only [mapOpt, Option.some.injEq] at h; subst h; trivial
+  | x :: xs, senv, h => by
+    simp only [mapOpt] at h
+    cases h1 : f x <;> simp only [h1] at h
     · cases h
-    · cases h2 : mapM' (shrink df cfg (.arr am)) xs <;> simp only [h2] at h
+    · cases h2 : mapOpt f xs <;> simp only [h2] at h
       · cases h
       · cases h
-        exact ⟨shrink_rel_partial df cfg am gpre x _ hdis (hx x (by simp)) h1,
-          relEnv_shrink df cfg am gpre hdis xs _ (fun y hy => hx y (by simp [hy])) h2⟩
+        exact ⟨hf x _ h1, relEnv_of P f hf xs _ h2⟩
 
--- FULL: for all broadcast-compatible operand shapes, operands with derivatives, and all four
--- switch settings (see `shrink_rel_partial`, `unshrink_shrink_partial`; the element-level
--- congruence `tree_congruence` already carries derivatives and is not restricted).
-/-- For EVERY element-wise expression tree (any depth, any operators that respect observational
-    equality — the whole catalogue does), every array antimask (all True, all False, single
-    True, arbitrary) and every mask representation of the operands: evaluating on the shrunken
-    operands and unshrinking agrees with direct evaluation at every element the antimask
-    selects (mask state, value, derivatives). -/
-theorem shrink_commutes_partial (df : Dflt K) (cfg : Cfg) (am : Arr Bool) (gpre sh : Shape)
+theorem relEnv_mem (P : Index → Index → Prop) (f : Q K → Option (Q K)) (S : Q K → Prop)
+    (hf : ∀ x x', S x → f x = some x' → Rel P x' x) : ∀ (env senv : List (Q K)),
+    (∀ x ∈ env, S x) → mapOpt f env = some senv → RelEnv P senv env
+  | [], senv, _, h => by simp only [mapOpt, Option.some.injEq] at h; subst h; trivial
+  | x :: xs, senv, hS, h => by
+    simp only [mapOpt] at h
+    cases h1 : f x <;> simp only [h1] at h
+    · cases h
+    · cases h2 : mapOpt f xs <;> simp only [h2] at h
+      · cases h
+      · cases h
+        exact ⟨hf x _ (hS x (by simp)) h1,
+          relEnv_mem P f S hf xs _ (fun y hy => hS y (by simp [hy])) h2⟩
+
+/-- **C17.**  For EVERY element-wise expression tree (any depth; any operators that respect
+    observational equality — the whole catalogue does), every array antimask (all True, all
+    False, single True, arbitrary), all operand tuples that broadcast into the grid (shape `()`,
+    fewer or more axes than the antimask, unit axes, fully masked, any mask representation, with
+    derivatives) and all four settings of the switches: evaluating on the shrunken operands and
+    unshrinking agrees with direct evaluation at every element the antimask selects — mask
+    state, value and derivatives. -/
+theorem shrink_commutes (df : Dflt K) (cfg : Cfg) (am : Arr Bool) (gpre sh : Shape)
     (e : Expr K) (he : e.Respects) (env senv : List (Q K)) (r r' u : Q K)
-    (hdis : cfg.disable = false) (hx : ∀ x ∈ env, Aligned am gpre x)
-    (hs : mapM' (shrink df cfg (.arr am)) env = some senv)
+    (hx : ∀ x ∈ env, Fits am gpre x)
+    (hs : mapOpt (shrink df cfg (.arr am)) env = some senv)
     (h' : eval senv e = some r') (h : eval env e = some r)
-    (hnc : NoCachedPath cfg r') (hder : r'.derivs = [])
-    (hfit : bcast r'.obj.shape (gpre ++ [count am]) = some (gpre ++ [count am]))
     (hu : unshrink df cfg (.arr am) sh r' = some u) :
     ∀ p a, a ∈ trues am → Valid gpre p → Cell.Same (u.cellB (p ++ a)) (r.cellB (p ++ a)) := by
   intro p a ha hp
-  have hrel := tree_congruence (PShr am gpre) senv env
-    (relEnv_shrink df cfg am gpre hdis env senv hx hs) e he r' r h' h
-  have h1 := unshrink_spec df cfg am sh r' u hdis hder hnc hu _ hfit p a ha
-    (valid_append _ _ _ _ hp ⟨rnk_lt ha, trivial⟩)
-  exact h1.trans (hrel.2.2 _ _ ⟨p, a, ha, hp, rfl, rfl⟩)
+  cases hdis : cfg.disable
+  · -- shrinking enabled
+    have hrel := tree_congruence (PShr am gpre) senv env
+      (relEnv_mem _ _ (Fits am gpre) (fun x x' hx h => shrink_rel df cfg am gpre x x' hdis hx h)
+        env senv hx hs) e he r' r h' h
+    have hgood : ∀ y ∈ senv, Good am gpre y := by
+      intro y hy
+      obtain ⟨x, hxm, hfx⟩ := mapOpt_mem _ _ _ hs y hy
+      exact (fresh_shrink_current df cfg am gpre x y hdis (hx x hxm) hfx).1
+    obtain ⟨hg, hkind⟩ := eval_good am gpre senv hgood e r' h'
+    have hcur : BackCurrent cfg am (gpre ++ [count am]) r' ∧
+        (NoCachedPath cfg r'.back → r'.obj.shape ≠ [] →
+          ∀ k d, lookupD r'.derivs k = some d → BackCurrent cfg am (gpre ++ [count am]) d.toQ) := by
+      rcases hkind with ⟨n, rfl⟩ | hfresh
+      · simp only [eval] at h'
+        obtain ⟨x, hxn, hfx⟩ := mapOpt_get _ _ _ hs n r' h'
+        exact (fresh_shrink_current df cfg am gpre x r' hdis (hx x (List.mem_of_getElem? hxn)) hfx).2
+      · refine ⟨backCurrent_of_noCachedPath _ _ _ _ (hfresh.1 ▸ noCachedPath_none cfg), ?_⟩
+        intro _ _ k d hk
+        exact backCurrent_of_noCachedPath _ _ _ _ (by
+          show NoCachedPath cfg d.toQ.back
+          rw [show d.toQ.back = d.back from rfl, hfresh.2 k d hk]; exact noCachedPath_none cfg)
+    have h1 := unshrink_spec df cfg am sh r' u _ hdis hg.1 hcur.1 hcur.2 hg.2 hu p a ha
+      (valid_append _ _ _ _ hp ⟨rnk_lt ha, trivial⟩)
+    exact h1.trans (hrel.2.2 _ _ ⟨p, a, ha, hp, rfl, rfl⟩)
+  · -- the test mode
+    have hrel := tree_congruence (PDis am gpre) senv env
+      (relEnv_mem _ _ (Fits am gpre)
+        (fun x x' hx h => shrink_rel_disabled df cfg am gpre x x' hdis hx.1 h) env senv hx hs)
+      e he r' r h' h
+    rw [unshrink_disabled df cfg _ sh r' hdis] at hu
+    cases hu
+    exact hrel.2.2 _ _ ⟨p, a, ha, hp, rfl, rfl⟩
+
+/-- the four configurations of `_DISABLE_SHRINKING` x (`_IGNORE_UNSHRUNK_AS_CACHED` or
+    `DISABLE_CACHE`) — any two settings of the three switches — give observationally equal
+    answers on the antimask -/
+theorem switches_agree (df : Dflt K) (cfg₁ cfg₂ : Cfg) (am : Arr Bool) (gpre sh : Shape)
+    (e : Expr K) (he : e.Respects) (env s₁ s₂ : List (Q K)) (r r₁ r₂ u₁ u₂ : Q K)
+    (hx : ∀ x ∈ env, Fits am gpre x)
+    (hs₁ : mapOpt (shrink df cfg₁ (.arr am)) env = some s₁)
+    (hs₂ : mapOpt (shrink df cfg₂ (.arr am)) env = some s₂)
+    (h₁ : eval s₁ e = some r₁) (h₂ : eval s₂ e = some r₂) (h : eval env e = some r)
+    (hu₁ : unshrink df cfg₁ (.arr am) sh r₁ = some u₁)
+    (hu₂ : unshrink df cfg₂ (.arr am) sh r₂ = some u₂) :
+    ∀ p a, a ∈ trues am → Valid gpre p → Cell.Same (u₁.cellB (p ++ a)) (u₂.cellB (p ++ a)) := by
+  intro p a ha hp
+  exact (shrink_commutes df cfg₁ am gpre sh e he env s₁ r r₁ u₁ hx hs₁ h₁ h hu₁ p a ha hp).trans
+    (shrink_commutes df cfg₂ am gpre sh e he env s₂ r r₂ u₂ hx hs₂ h₂ h hu₂ p a ha hp).symm
+
+/-- for an object that is NOT fresh from `shrink` (one held while other code runs), the cached
+    path is correct exactly under `BackCurrent` — C18's invariant for the 'unshrunk' entry:
+    the referenced original still holds the arrays it held when the entry was stored (C18:
+    `unshrunk_held_partial`, hypothesis `a.v = s.v ∧ a.m = s.m`; its failure is KF-C18-1) -/
+theorem unshrink_held (df : Dflt K) (cfg : Cfg) (am : Arr Bool) (sh G' : Shape) (y u : Q K)
+    (hdis : cfg.disable = false) (hwf : y.WF) (hfit : bcast y.obj.shape G' = some G')
+    (hcur : BackCurrent cfg am G' y)
+    (hcurd : NoCachedPath cfg y.back → y.obj.shape ≠ [] →
+      ∀ k d, lookupD y.derivs k = some d → BackCurrent cfg am G' d.toQ)
+    (hu : unshrink df cfg (.arr am) sh y = some u) :
+    ∀ p a, a ∈ trues am → Valid G' (p ++ [rnk am a]) →
+      Cell.Same (u.cellB (p ++ a)) (y.cellB (p ++ [rnk am a])) :=
+  unshrink_spec df cfg am sh y u G' hdis hwf hcur hcurd hfit hu
+
+/-- `unshrink` dereferences the cached reference when it runs: the entry then shows the
+    CURRENT arrays `now` of the original, not those at shrink time -/
+def deref (y : Q K) (now : Obj K × List (String × Obj K)) : Q K :=
+  match y.back with
+  | .to _ _ => { y with back := .to now.1 now.2 }
+  | _ => y
+
+/-- a shrunken object HELD while other code runs: if the original has not been modified since it
+    was shrunk (C18: value and mask stamps unchanged, `unshrunk_held_partial`), un-shrinking agrees
+    with the original on the antimask in every switch setting.  This is the only assumption the
+    cached path needs; without it the statement is false (`unshrink_held_counterexample`). -/
+theorem unshrink_held_unmodified (df : Dflt K) (cfg : Cfg) (am : Arr Bool) (gpre sh : Shape)
+    (x y u : Q K) (now : Obj K × List (String × Obj K)) (hx : Fits am gpre x)
+    (hs : shrink df cfg (.arr am) x = some y)
+    (hnow : ∀ o ds, y.back = .to o ds → now = (o, ds))
+    (hu : unshrink df cfg (.arr am) sh (deref y now) = some u) :
+    ∀ p a, a ∈ trues am → Valid gpre p → Cell.Same (u.cellB (p ++ a)) (x.cellB (p ++ a)) := by
+  have : deref y now = y := by
+    unfold deref
+    split
+    · next o ds e => rw [hnow o ds e, ← e]
+    · rfl
+  rw [this] at hu
+  exact unshrink_shrink df cfg am gpre sh x y u hx hs hu
 
 /-- scalar antimask True: shrink and unshrink are the identity on the arrays, so the
     commutation is literal equality of every element, for every switch setting -/
@@ -194,33 +306,59 @@ theorem shrink_unshrink_true (df : Dflt K) (cfg : Cfg) (sh : Shape) (x : Q K) :
       · next hne => exact absurd rfl hne
     · unfold unshrink unshrinkG; simp [hd]
 
--- FULL: the four configurations of `_DISABLE_SHRINKING` x (`_IGNORE_UNSHRUNK_AS_CACHED` or
--- `DISABLE_CACHE`) give equal restricted observations.  Proved: every configuration with
--- shrinking enabled in which the cached path is not taken.  The cached path needs the C18
--- invariant (the cached back-pointer is current) and the test mode needs the `mask_where`
--- lemma; both are exercised by the correspondence check under all four settings.
-/-- two switch settings give the same answers on the antimask -/
-theorem switches_agree_partial (df : Dflt K) (cfg₁ cfg₂ : Cfg) (am : Arr Bool) (gpre sh : Shape)
-    (e : Expr K) (he : e.Respects) (env s₁ s₂ : List (Q K)) (r r₁ r₂ u₁ u₂ : Q K)
-    (hd₁ : cfg₁.disable = false) (hd₂ : cfg₂.disable = false)
-    (hx : ∀ x ∈ env, Aligned am gpre x)
-    (hs₁ : mapM' (shrink df cfg₁ (.arr am)) env = some s₁)
-    (hs₂ : mapM' (shrink df cfg₂ (.arr am)) env = some s₂)
-    (h₁ : eval s₁ e = some r₁) (h₂ : eval s₂ e = some r₂) (h : eval env e = some r)
-    (hn₁ : NoCachedPath cfg₁ r₁) (hn₂ : NoCachedPath cfg₂ r₂)
-    (hde₁ : r₁.derivs = []) (hde₂ : r₂.derivs = [])
-    (hf₁ : bcast r₁.obj.shape (gpre ++ [count am]) = some (gpre ++ [count am]))
-    (hf₂ : bcast r₂.obj.shape (gpre ++ [count am]) = some (gpre ++ [count am]))
-    (hu₁ : unshrink df cfg₁ (.arr am) sh r₁ = some u₁)
-    (hu₂ : unshrink df cfg₂ (.arr am) sh r₂ = some u₂) :
-    ∀ p a, a ∈ trues am → Valid gpre p → Cell.Same (u₁.cellB (p ++ a)) (u₂.cellB (p ++ a)) := by
-  intro p a ha hp
-  exact (shrink_commutes_partial df cfg₁ am gpre sh e he env s₁ r r₁ u₁ hd₁ hx hs₁ h₁ h hn₁ hde₁
-      hf₁ hu₁ p a ha hp).trans
-    (shrink_commutes_partial df cfg₂ am gpre sh e he env s₂ r r₂ u₂ hd₂ hx hs₂ h₂ h hn₂ hde₂
-      hf₂ hu₂ p a ha hp).symm
+theorem shrink_true (df : Dflt K) (cfg : Cfg) (x : Q K) : shrink df cfg (.all true) x = some x := by
+  unfold shrink shrinkG
+  cases hd : cfg.disable
+  · simp
+  · simp only [↓reduceIte]
+    split
+    · rfl
+    · rfl
+    · next hne => exact absurd rfl hne
+
+theorem mapOpt_id {α : Type} (f : α → Option α) (hf : ∀ x, f x = some x) : ∀ l : List α, mapOpt f l = some l
+  | [] => rfl
+  | a :: as => by simp [mapOpt, hf a, mapOpt_id f hf as]
+
+/-- scalar antimask True, whole trees: the shrunken environment IS the environment, and
+    `unshrink` hands the value back (minus its cache entry): literal equality of every element, in
+    all four switch settings.  (Scalar antimask False selects no element.) -/
+theorem shrink_commutes_true (df : Dflt K) (cfg : Cfg) (sh : Shape) (e : Expr K) (env senv : List (Q K))
+    (r r' u : Q K) (hs : mapOpt (shrink df cfg (.all true)) env = some senv)
+    (h' : eval senv e = some r') (h : eval env e = some r)
+    (hu : unshrink df cfg (.all true) sh r' = some u) : ∀ j, u.cellB j = r.cellB j := by
+  rw [mapOpt_id _ (shrink_true df cfg) env] at hs
+  cases hs
+  rw [h] at h'; cases h'
+  intro j
+  unfold unshrink unshrinkG at hu
+  cases hd : cfg.disable
+  · simp only [hd, Bool.false_eq_true, ↓reduceIte, Option.some.injEq] at hu
+    subst hu
+    exact cellB_congr _ _ (cacheDrop_obj _ _) (cacheDrop_derivs _ _) j
+  · simp only [hd, ↓reduceIte, Option.some.injEq] at hu
+    subst hu; rfl
 
 end
+
+/-! #### the assumption of the cached path is necessary (KF-C18-1 seen from C17) -/
+
+def heldX : Q Nat := ⟨.scalar, ⟨[2], fun i => if i == [0] then 1 else 2, .allF, fun _ => false⟩, [], false, .none⟩
+def heldAm : Arr Bool := ⟨[2], fun _ => true⟩
+/-- the original after `a[0] = 5`, executed while the shrunken object is held -/
+def heldNow : Obj Nat × List (String × Obj Nat) :=
+  (⟨[2], fun i => if i == [0] then 5 else 2, .allF, fun _ => false⟩, [])
+def valueAt (q : Option (Q Nat)) (j : Index) : Option Nat := q.map fun u => (u.cellB j).v
+
+/-- `s = a.shrink(m); a[0] = 5; s.unshrink(m)`: with the default switches the answer shows the
+    NEW value, with `_IGNORE_UNSHRUNK_AS_CACHED` the value at shrink time — the switch settings
+    disagree once the back-pointer is not current -/
+theorem unshrink_held_counterexample :
+    valueAt ((shrink ⟨1, 0⟩ ⟨false, false, false⟩ (.arr heldAm) heldX).bind fun y =>
+      unshrink ⟨1, 0⟩ ⟨false, false, false⟩ (.arr heldAm) [] (deref y heldNow)) [0] = some 5 ∧
+    valueAt ((shrink ⟨1, 0⟩ ⟨false, true, false⟩ (.arr heldAm) heldX).bind fun y =>
+      unshrink ⟨1, 0⟩ ⟨false, true, false⟩ (.arr heldAm) [] (deref y heldNow)) [0] = some 1 := by
+  decide
 
 /-! #### non-vacuity -/
 
@@ -234,7 +372,19 @@ example : (gather exAm (⟨[3], fun i => i⟩ : Arr Index)).shape = [3] ∧
     (gather exAm (⟨[3], fun i => i⟩ : Arr Index)).get [1] = [0] := by decide
 example : Arr.map2 (· ++ ·) (⟨[4, 1, 3], fun i => i⟩ : Arr Index) ⟨[2, 1], fun i => i⟩ ≠ none := by
   simp [Arr.map2, bcast, bcastRev]
-example : Aligned exAm [4] (⟨.scalar, ⟨[4, 2, 3], fun _ => (0 : Nat), .arr, fun i => i == [0, 0, 1]⟩, [], false, .none⟩ : Q Nat) :=
-  ⟨rfl, [4], rfl, by decide⟩
+/-- operands that `Fits` admits for the grid [4] ++ [2, 3]: fewer axes + unit axis, with a
+    derivative; leading axis; shapeless -/
+example : Fits exAm [4] (⟨.scalar, ⟨[1, 3], fun _ => (0 : Nat), .arr, fun i => i == [0, 1]⟩,
+    [("t", ⟨⟨[1, 3], fun _ => 1, .allF, fun _ => false⟩, false, .none⟩)], false, .none⟩ : Q Nat) := by
+  refine ⟨?_, by decide⟩
+  intro k d hk
+  simp only [lookupD] at hk
+  split at hk
+  · cases hk; rfl
+  · cases hk
+example : Fits exAm [4] (⟨.scalar, ⟨[4, 2, 3], fun _ => (0 : Nat), .allF, fun _ => false⟩, [], false, .none⟩ : Q Nat) :=
+  ⟨fun k d hk => by simp [lookupD] at hk, by decide⟩
+example : Fits exAm [4] (⟨.scalar, ⟨[], fun _ => (0 : Nat), .allT, fun _ => false⟩, [], false, .none⟩ : Q Nat) :=
+  ⟨fun k d hk => by simp [lookupD] at hk, by decide⟩
 
 end PMV.Shrink
